@@ -15,6 +15,8 @@ right-hand side row by row.  Re-scaling the columns and moving the scale into th
 not change `Â`.
 -/
 import PyttbModel.Lemmas.CpAlsKnorm
+import Mathlib.Algebra.BigOperators.Group.Finset.Sigma
+import Mathlib.Algebra.Order.BigOperators.Group.Finset
 
 set_option linter.unusedSectionVars false
 set_option linter.unusedSimpArgs false
@@ -108,11 +110,10 @@ theorem bform_prod_gram_nonneg (R : Nat) (K : Nat → Nat) (F : Nat → Nat → 
           bform R (fun a b => prodOver L fun m => ∑ k ∈ range (K m), F m k a * F m k b)
             (fun a => d a * F m k a) (fun a => d a * F m k a) := by
       unfold bform
-      rw [sum_comm' (s := range (K m)) (t := fun _ => range R) (t' := range R) (s' := fun _ => range (K m))
-        (by intro x y; simp [and_comm])]
+      symm
+      rw [sum_comm (s := range (K m)) (t := range R)]
       refine sum_congr rfl fun a _ => ?_
-      rw [sum_comm' (s := range (K m)) (t := fun _ => range R) (t' := range R) (s' := fun _ => range (K m))
-        (by intro x y; simp [and_comm])]
+      rw [sum_comm (s := range (K m)) (t := range R)]
       refine sum_congr rfl fun b _ => ?_
       simp only [prodOver, List.map_cons, List.foldr_cons]
       rw [mul_comm (d a * d b), sum_mul, sum_mul]
@@ -122,5 +123,482 @@ theorem bform_prod_gram_nonneg (R : Nat) (K : Nat → Nat) (F : Nat → Nat → 
     exact sum_nonneg fun k _ => ih _
 
 end quad
+
+/-! ### the squared residual as a function of one factor -/
+
+section expand
+variable {α : Type} [Field α]
+
+theorem prodOver_congr {l : List Nat} {f g : Nat → α} (h : ∀ m ∈ l, f m = g m) : prodOver l f = prodOver l g := by
+  unfold prodOver
+  rw [List.map_congr_left h]
+
+/-- Split the factor of mode `n` off a product over all modes. -/
+theorem prodOver_range_split (f : Nat → α) {N n : Nat} (hn : n < N) :
+    prodOver (List.range N) f = f n * prodOver ((List.range N).filter (· != n)) f := by
+  unfold prodOver
+  simp only [← List.prod_eq_foldr]
+  induction N with
+  | zero => omega
+  | succ N ih =>
+    rw [List.range_succ, List.filter_append, List.map_append, List.map_append, List.prod_append, List.prod_append]
+    by_cases h : n = N
+    · subst h
+      have h1 : (List.range n).filter (· != n) = List.range n := by
+        rw [List.filter_eq_self]
+        intro m hm
+        have := List.mem_range.1 hm
+        simp only [bne_iff_ne, ne_eq]
+        omega
+      have h2 : [n].filter (· != n) = [] := by simp
+      rw [h1, h2]
+      simp [mul_comm]
+    · have hn' : n < N := by omega
+      have h2 : [N].filter (· != n) = [N] := by
+        rw [List.filter_eq_self]
+        intro m hm
+        simp only [List.mem_singleton] at hm
+        subst hm
+        simp only [bne_iff_ne, ne_eq]
+        omega
+      rw [ih hn', h2, mul_assoc]
+
+theorem gram_get (A : Mat α) (R : Nat) {a b : Nat} (ha : a < R) (hb : b < R) :
+    (gram A R).get a b = ∑ i ∈ range A.length, A.get i a * A.get i b := by
+  rw [gram, get_tab _ _ _ ha hb, sumRange_eq]
+
+/-- `(∗_{m≠n} U_mᵀU_m)[a, b]`: the coefficient matrix of the update of mode `n`. -/
+def otherGram (U : List (Mat α)) (N R n a b : Nat) : α :=
+  prodOver ((List.range N).filter (· != n)) fun m => (gram (U.getD m []) R).get a b
+
+/-- `‖[[w; U]]‖² = Σ_i Â_i Y Â_iᵀ` with `Â = U_n diag(w)`, `Y = ∗_{m≠n} U_mᵀU_m`. -/
+theorem ip_self_expand (s : List Nat) (w : List α) (U : List (Mat α)) (hU : ShapeOK s w.length U)
+    {n : Nat} (hn : n < s.length) :
+    ip s (Ktensor.get ⟨w, U⟩) (Ktensor.get ⟨w, U⟩) =
+      ∑ i ∈ range (s.getD n 0), bform w.length (otherGram U s.length w.length n)
+        (fun a => (U.getD n []).get i a * w.getD a 0) (fun a => (U.getD n []).get i a * w.getD a 0) := by
+  rw [← knormLaw s w U hU]
+  unfold knormSq bform
+  simp only [sumRange_eq]
+  rw [sum_comm (s := range (s.getD n 0)) (t := range w.length)]
+  refine sum_congr rfl fun a ha => ?_
+  rw [sum_comm (s := range (s.getD n 0)) (t := range w.length)]
+  refine sum_congr rfl fun b hb => ?_
+  rw [hU.1, prodOver_range_split _ hn, gram_get _ _ (mem_range.1 ha) (mem_range.1 hb), (hU.2 n hn).1]
+  unfold otherGram
+  rw [← sum_mul, ← mul_assoc, mul_sum]
+  congr 1
+  refine sum_congr rfl fun i _ => ?_
+  ring
+
+/-- `⟨X, [[w; U]]⟩ = Σ_i B_i · Â_i` with `B = mttkrp(X, U, n)`. -/
+theorem ip_data_expand {D : Data α} {X : List Nat → α} (hD : DataLaws D X) (w : List α) (U : List (Mat α))
+    (hU : ShapeOK D.shape w.length U) {n : Nat} (hn : n < D.shape.length) :
+    ip D.shape X (Ktensor.get ⟨w, U⟩) =
+      ∑ i ∈ range (D.shape.getD n 0), ∑ r ∈ range w.length,
+        (D.mttkrp U n).get i r * ((U.getD n []).get i r * w.getD r 0) := by
+  rw [hD.mttkrp_law w U n hn hU]
+  simp only [sumRange_eq]
+  rw [sum_comm]
+  refine sum_congr rfl fun i _ => sum_congr rfl fun r _ => ?_
+  ring
+
+end expand
+
+section expand_ord
+variable {α : Type} [Field α] [LinearOrder α] [IsStrictOrderedRing α]
+
+/-- `‖X − [[w; U]]‖² = ‖X‖² + Σ_i (Â_i Y Â_iᵀ − 2 B_i · Â_i)`. -/
+theorem resid_expand {D : Data α} {X : List Nat → α} (hD : DataLaws D X) (w : List α) (U : List (Mat α))
+    (hU : ShapeOK D.shape w.length U) {n : Nat} (hn : n < D.shape.length) :
+    ip D.shape (fun i => X i - Ktensor.get ⟨w, U⟩ i) (fun i => X i - Ktensor.get ⟨w, U⟩ i) =
+      ip D.shape X X + ∑ i ∈ range (D.shape.getD n 0),
+        qrow w.length (otherGram U D.shape.length w.length n) (fun r => (D.mttkrp U n).get i r)
+          (fun a => (U.getD n []).get i a * w.getD a 0) := by
+  rw [ip_sub_sub, ip_self_expand D.shape w U hU hn, ip_data_expand hD w U hU hn]
+  unfold qrow
+  rw [sum_sub_distrib, ← mul_sum]
+  ring
+
+/-- An array of norm zero is orthogonal to everything. -/
+theorem ip_eq_zero_of_self (s : List Nat) (X M : List Nat → α) (h : ip s M M = 0) : ip s X M = 0 := by
+  unfold ip at h ⊢
+  generalize allSubs s = l at h ⊢
+  induction l with
+  | nil => simp
+  | cons i l ih =>
+    simp only [List.map_cons, List.sum_cons] at h ⊢
+    have h1 : 0 ≤ M i * M i := mul_self_nonneg _
+    have h2 : 0 ≤ (l.map fun i => M i * M i).sum := by
+      apply List.sum_nonneg
+      intro x hx
+      obtain ⟨j, _, rfl⟩ := List.mem_map.1 hx
+      exact mul_self_nonneg _
+    have h3 : M i * M i = 0 := by linarith
+    have h4 : (l.map fun i => M i * M i).sum = 0 := by linarith
+    rw [mul_self_eq_zero.1 h3, ih h4]
+    simp
+
+/-- If the coefficient matrix vanishes the model is the zero array: `‖X − [[w; U]]‖² = ‖X‖²`. -/
+theorem resid_of_otherGram_zero {D : Data α} (X : List Nat → α) (w : List α) (U : List (Mat α))
+    (hU : ShapeOK D.shape w.length U) {n : Nat} (hn : n < D.shape.length)
+    (hY : ∀ a < w.length, ∀ b < w.length, otherGram U D.shape.length w.length n a b = 0) :
+    ip D.shape (fun i => X i - Ktensor.get ⟨w, U⟩ i) (fun i => X i - Ktensor.get ⟨w, U⟩ i) = ip D.shape X X := by
+  have h0 : ip D.shape (Ktensor.get ⟨w, U⟩) (Ktensor.get ⟨w, U⟩) = 0 := by
+    rw [ip_self_expand D.shape w U hU hn]
+    refine sum_eq_zero fun i _ => ?_
+    rw [bform_congr (Y' := fun _ _ => 0) hY (fun _ _ => rfl) (fun _ _ => rfl)]
+    simp [bform]
+  rw [ip_sub_sub, h0, ip_eq_zero_of_self _ _ _ h0]
+  ring
+
+theorem otherGram_symm (U : List (Mat α)) (N R n : Nat) :
+    ∀ a < R, ∀ b < R, otherGram U N R n a b = otherGram U N R n b a := by
+  intro a ha b hb
+  unfold otherGram
+  refine prodOver_congr fun m _ => ?_
+  rw [gram_get _ _ ha hb, gram_get _ _ hb ha]
+  refine sum_congr rfl fun i _ => mul_comm _ _
+
+theorem otherGram_psd (U : List (Mat α)) (N R n : Nat) (d : Nat → α) : 0 ≤ bform R (otherGram U N R n) d d := by
+  have := bform_prod_gram_nonneg R (fun m => (U.getD m []).length) (fun m k a => (U.getD m []).get k a)
+    ((List.range N).filter (· != n)) d
+  rwa [bform_congr (Y' := otherGram U N R n) (x' := d) (y' := d) ?_ (fun _ _ => rfl) (fun _ _ => rfl)] at this
+  intro a ha b hb
+  unfold otherGram
+  refine prodOver_congr fun m _ => ?_
+  rw [gram_get _ _ ha hb]
+
+theorem otherGram_set (U : List (Mat α)) (N R n : Nat) (A : Mat α) (a b : Nat) :
+    otherGram (U.set n A) N R n a b = otherGram U N R n a b := by
+  unfold otherGram
+  refine prodOver_congr fun m hm => ?_
+  simp only [List.mem_filter, List.mem_range, bne_iff_ne, ne_eq] at hm
+  rw [getD_set_ne _ _ _ (Ne.symm hm.2)]
+
+theorem coef_get_otherGram {rank : Nat} {st : State α} (hG : GramOK rank st) {N : Nat} (hN : st.U.length = N)
+    (n : Nat) {a r : Nat} (ha : a < rank) (hr : r < rank) :
+    (coef st.UtU N rank n).get a r = otherGram st.U N rank n a r := by
+  unfold coef otherGram
+  rw [get_tab _ _ _ ha hr]
+  refine prodOver_congr fun m hm => ?_
+  simp only [List.mem_filter, List.mem_range] at hm
+  rw [hG.2 m (by rw [hN]; exact hm.1)]
+
+/-! ### the column scale -/
+
+theorem list_sum_sq_eq_zero (c : List α) (h : (c.map fun x => x * x).sum = 0) : ∀ x ∈ c, x = 0 := by
+  induction c with
+  | nil => simp
+  | cons y c ih =>
+    simp only [List.map_cons, List.sum_cons] at h
+    have h1 : 0 ≤ y * y := mul_self_nonneg _
+    have h2 : 0 ≤ (c.map fun x => x * x).sum := by
+      apply List.sum_nonneg
+      intro x hx
+      obtain ⟨j, _, rfl⟩ := List.mem_map.1 hx
+      exact mul_self_nonneg _
+    intro x hx
+    rcases List.mem_cons.1 hx with rfl | hx
+    · exact mul_self_eq_zero.1 (by linarith)
+    · exact ih (by linarith) x hx
+
+theorem list_sum_sq_nonneg (c : List α) : 0 ≤ (c.map fun x => x * x).sum := by
+  apply List.sum_nonneg
+  intro x hx
+  obtain ⟨j, _, rfl⟩ := List.mem_map.1 hx
+  exact mul_self_nonneg _
+
+/-- From the second pass on the column scale is at least one. -/
+theorem colWeight_later_pos {o : NumOps α} (ho : o.Lawful) {it : Nat} (hit : 0 < it) (c : List α) :
+    0 < Gen.colWeight o it c := by
+  have h0 : Gen.firstIteration it = false := by simp [Gen.firstIteration]; omega
+  simp only [Gen.colWeight, h0, Bool.false_eq_true, if_false, Gen.colWeightLater, NumOps.max, ho.ofNat_eq,
+    Nat.cast_one]
+  split
+  · exact zero_lt_one
+  · rename_i h
+    rw [ho.lt_iff] at h
+    exact lt_of_lt_of_le zero_lt_one (not_lt.1 h)
+
+/-- A column scale of zero: the column is entirely zero. -/
+theorem colWeight_eq_zero {o : NumOps α} (ho : o.Lawful) (it : Nat) (c : List α) (h : Gen.colWeight o it c = 0) :
+    ∀ x ∈ c, x = 0 := by
+  by_cases hit : 0 < it
+  · exact absurd h (colWeight_later_pos ho hit c).ne'
+  · have h0 : Gen.firstIteration it = true := by simp [Gen.firstIteration]; omega
+    simp only [Gen.colWeight, h0, if_true, Gen.colWeightFirst, sumL] at h
+    have := ho.sqrt_mul_self _ (list_sum_sq_nonneg c)
+    rw [h, mul_zero] at this
+    exact list_sum_sq_eq_zero c this.symm
+
+theorem colWeights_getD (o : NumOps α) (it I rank : Nat) (A : Mat α) {r : Nat} (hr : r < rank) :
+    (colWeights o it I rank A).getD r 0 = Gen.colWeight o it (col A I r) := by
+  simp [colWeights, List.getD_eq_getElem?_getD, hr]
+
+/-- The scaled factor times the column scale is the solver's answer, when no `0/0` occurs: the
+scales are all non-zero, or all zero (then the answer is the zero matrix and is not divided). -/
+theorem scaleCols_mul_reg {o : NumOps α} (ho : o.Lawful) (it I R : Nat) (A : Mat α)
+    (hreg : (∀ r < R, (colWeights o it I R A).getD r 0 ≠ 0) ∨ (∀ r < R, (colWeights o it I R A).getD r 0 = 0))
+    {i r : Nat} (hi : i < I) (hr : r < R) :
+    (scaleCols o I R A (colWeights o it I R A)).get i r * (colWeights o it I R A).getD r 0 = A.get i r := by
+  rcases hreg with hreg | hreg
+  · exact scaleCols_mul ho I R A _ hreg hi hr
+  · have hz := hreg r hr
+    rw [hz, mul_zero]
+    rw [colWeights_getD _ _ _ _ _ hr] at hz
+    refine (colWeight_eq_zero ho it _ hz (A.get i r) ?_).symm
+    unfold col
+    exact List.mem_map.2 ⟨i, List.mem_range.2 hi, rfl⟩
+
+theorem allZero_tab {o : NumOps α} (ho : o.Lawful) (I R : Nat) (f : Nat → Nat → α)
+    (h : allZero o (tab I R f) = true) : ∀ i < I, ∀ r < R, f i r = 0 := by
+  intro i hi r hr
+  unfold allZero tab at h
+  rw [List.all_eq_true] at h
+  have h1 := h ((List.range R).map fun r => f i r) (List.mem_map.2 ⟨i, List.mem_range.2 hi, rfl⟩)
+  rw [List.all_eq_true] at h1
+  have h2 := h1 (f i r) (List.mem_map.2 ⟨r, List.mem_range.2 hr, rfl⟩)
+  exact (ho.isZero_iff _).1 h2
+
+/-! ### a mode update, a sweep -/
+
+/-- `‖X − [[weights; U]]‖²` for the model held in a state. -/
+def resid2 (D : Data α) (X : List Nat → α) (st : State α) : α :=
+  ip D.shape (fun i => X i - Ktensor.get ⟨st.weights, st.U⟩ i) (fun i => X i - Ktensor.get ⟨st.weights, st.U⟩ i)
+
+/-- The new column scales are all non-zero or all zero (no `0/0` in `Unew / weights`). -/
+def ScaleRegular (rank : Nat) (st' : State α) : Prop :=
+  (∀ r < rank, st'.weights.getD r 0 ≠ 0) ∨ (∀ r < rank, st'.weights.getD r 0 = 0)
+
+/-- One mode update does not increase the squared residual. -/
+theorem modeUpdate_resid_le {D : Data α} {S : Services α} {o : NumOps α} (ho : o.Lawful) (hS : SolveContract S)
+    {X : List Nat → α} (hD : DataLaws D X) {rank it last n : Nat} {st st' : State α}
+    (h : modeUpdate D S o rank it last n st = .ok st') (hI : PassInv D rank st)
+    (hw : st.weights.length = rank) (hn : n < D.shape.length) (hreg : ScaleRegular rank st') :
+    resid2 D X st' ≤ resid2 D X st := by
+  have hU := hI.shape
+  have hsh := modeUpdate_shape h hU
+  have hnU : n < st.U.length := by rw [hU.1]; exact hn
+  obtain ⟨A0, hsolve, rfl⟩ := modeUpdate_ok h
+  unfold resid2
+  unfold ScaleRegular at hreg
+  rw [applyUpdate_weights] at hreg hsh ⊢
+  rw [applyUpdate_U] at hsh ⊢
+  have hwl := length_colWeights o it (D.shape.getD n 0) rank A0
+  have hU0 : ShapeOK D.shape st.weights.length st.U := by rw [hw]; exact hU
+  have hU1 : ShapeOK D.shape (colWeights o it (D.shape.getD n 0) rank A0).length
+      (st.U.set n (scaleCols o (D.shape.getD n 0) rank A0 (colWeights o it (D.shape.getD n 0) rank A0))) := by
+    rw [hwl]; exact hsh.1
+  unfold solveStep at hsolve
+  by_cases hz : allZero o (coef st.UtU D.shape.length rank n) = true
+  · -- the guard branch: the coefficient matrix is zero, both models are the zero array
+    have hY : ∀ a < rank, ∀ b < rank, otherGram st.U D.shape.length rank n a b = 0 := by
+      intro a ha b hb
+      rw [← coef_get_otherGram hI.gram hU.1 n ha hb]
+      have := allZero_tab ho rank rank _ hz a ha b hb
+      rw [coef, get_tab _ _ _ ha hb]
+      exact this
+    rw [resid_of_otherGram_zero X _ _ hU0 hn (by rw [hw]; exact hY),
+      resid_of_otherGram_zero X _ _ hU1 hn (by
+        rw [hwl]; intro a ha b hb; rw [otherGram_set]; exact hY a ha b hb)]
+  · -- the solve branch
+    rw [if_neg hz] at hsolve
+    rw [resid_expand hD _ _ hU0 hn, resid_expand hD _ _ hU1 hn, hwl, hw, hD.mttkrp_indep,
+      getD_set_eq _ _ _ _ hnU]
+    refine add_le_add (le_refl _) (sum_le_sum fun i hi => ?_)
+    rw [qrow_congr (Y' := otherGram st.U D.shape.length rank n) (c' := fun r => (D.mttkrp st.U n).get i r)
+      (x' := fun a => A0.get i a) (fun a _ b _ => otherGram_set _ _ _ _ _ _ _) (fun _ _ => rfl)
+      (fun a ha => scaleCols_mul_reg ho it _ rank A0 hreg (mem_range.1 hi) ha)]
+    refine qrow_min (otherGram_symm _ _ _ _) (otherGram_psd _ _ _ _) (fun r hr => ?_) _
+    have hc := hS n _ _ _ hsolve rank i r (length_coef _ _ _ _) hr
+    rw [← hc, sumRange_eq]
+    refine sum_congr rfl fun a ha => ?_
+    rw [coef_get_otherGram hI.gram hU.1 n (mem_range.1 ha) hr]
+
+/-- Every successful mode update of the sweep over `dims` started in `st` ends in a state with `P`. -/
+def SweepAll (step : Nat → State α → Except Reject (State α)) (P : State α → Prop) :
+    List Nat → State α → Prop
+  | [], _ => True
+  | n :: rest, st => ∀ st1, step n st = .ok st1 → P st1 ∧ SweepAll step P rest st1
+
+/-- From the second pass on every update of a sweep has non-zero column scales. -/
+theorem sweepAll_later {D : Data α} {S : Services α} {o : NumOps α} (ho : o.Lawful) {rank it last : Nat}
+    (hit : 0 < it) (dims : List Nat) (st : State α) :
+    SweepAll (fun n s => modeUpdate D S o rank it last n s) (ScaleRegular rank) dims st := by
+  induction dims generalizing st with
+  | nil => trivial
+  | cons n rest ih =>
+    intro st1 h1
+    refine ⟨Or.inl fun r hr => ?_, ih st1⟩
+    obtain ⟨A0, _, rfl⟩ := modeUpdate_ok h1
+    rw [applyUpdate_weights, colWeights_getD _ _ _ _ _ hr]
+    exact (colWeight_later_pos ho hit _).ne'
+
+theorem passInv_modeUpdate {D : Data α} {S : Services α} {o : NumOps α} {rank it last n : Nat} {st st' : State α}
+    (h : modeUpdate D S o rank it last n st = .ok st') (hI : PassInv D rank st) :
+    PassInv D rank st' ∧ st'.weights.length = rank :=
+  ⟨⟨(modeUpdate_shape h hI.shape).1, gramOK_modeUpdate h hI.gram⟩, (modeUpdate_shape h hI.shape).2⟩
+
+/-- A sweep does not increase the squared residual. -/
+theorem sweep_resid_le {D : Data α} {S : Services α} {o : NumOps α} (ho : o.Lawful) (hS : SolveContract S)
+    {X : List Nat → α} (hD : DataLaws D X) {rank it last : Nat} (dims : List Nat) {st st1 : State α}
+    (h : dims.foldlM (fun s n => modeUpdate D S o rank it last n s) st = .ok st1) (hI : PassInv D rank st)
+    (hw : st.weights.length = rank) (hdims : ∀ n ∈ dims, n < D.shape.length)
+    (hreg : SweepAll (fun n s => modeUpdate D S o rank it last n s) (ScaleRegular rank) dims st) :
+    resid2 D X st1 ≤ resid2 D X st := by
+  induction dims generalizing st with
+  | nil => simp [List.foldlM] at h; cases h; exact le_refl _
+  | cons n rest ih =>
+    rw [List.foldlM_cons] at h
+    cases hm : modeUpdate D S o rank it last n st with
+    | error e => rw [hm] at h; cases h
+    | ok s1 =>
+      rw [hm] at h
+      obtain ⟨hr1, hr2⟩ := hreg s1 hm
+      have hI1 := passInv_modeUpdate hm hI
+      have h1 := modeUpdate_resid_le ho hS hD hm hI hw (hdims n List.mem_cons_self) hr1
+      have h2 := ih h hI1.1 hI1.2 (fun m hm' => hdims m (List.mem_cons_of_mem _ hm')) hr2
+      exact le_trans h2 h1
+
+/-- A pass does not increase the squared residual. -/
+theorem iterStep_resid_le {D : Data α} {S : Services α} {o : NumOps α} (ho : o.Lawful) (hS : SolveContract S)
+    {X : List Nat → α} (hD : DataLaws D X) {rank : Nat} {stoptol : α} {dims : List Nat} {it : Nat}
+    {st st' : State α} (h : iterStep D S o rank stoptol dims it st = .ok st') (hI : PassInv D rank st)
+    (hw : st.weights.length = rank) (hdims : ∀ n ∈ dims, n < D.shape.length)
+    (hreg : SweepAll (fun n s => modeUpdate D S o rank it (dims.getLastD 0) n s) (ScaleRegular rank) dims st) :
+    resid2 D X st' ≤ resid2 D X st := by
+  obtain ⟨st1, hf, rfl⟩ := iterStep_ok h
+  exact (sweep_resid_le ho hS hD dims hf hI hw hdims hreg : resid2 D X st1 ≤ resid2 D X st)
+
+/-- Smaller residual, larger fit. -/
+theorem fit_le_of_resid {nx nr nr' f f' : α} (hx : 0 < nx) (h0 : 0 ≤ nr) (h0' : 0 ≤ nr')
+    (hsq : nr' * nr' ≤ nr * nr) (hf : f = 1 - nr / nx) (hf' : f' = 1 - nr' / nx) : nr' ≤ nr ∧ f ≤ f' := by
+  have hle : nr' ≤ nr := by
+    by_contra hc
+    have := mul_self_lt_mul_self h0 (not_le.1 hc)
+    linarith
+  refine ⟨hle, ?_⟩
+  rw [hf, hf']
+  have := div_le_div_of_nonneg_right hle hx.le
+  linarith
+
+end expand_ord
+
+/-! ### the loop -/
+
+section trace
+variable {α : Type}
+
+/-- `tr` lists the states after the successive passes `k, k+1, …` of the loop started in `st`. -/
+def IsTrace (step : Nat → State α → Except Reject (State α)) : Nat → State α → List (State α) → Prop
+  | _, _, [] => True
+  | k, st, s :: tr => step k st = .ok s ∧ IsTrace step (k + 1) s tr
+
+/-- The loop returns the state after its last pass. -/
+theorem loopFrom_trace (step : Nat → State α → Except Reject (State α)) :
+    ∀ (fuel k : Nat) (st st' : State α), loopFrom step fuel k st = .ok st' →
+      ∃ tr, IsTrace step k st tr ∧ tr.getLastD st = st' ∧ (0 < fuel → tr ≠ []) := by
+  intro fuel
+  induction fuel with
+  | zero =>
+    intro k st st' h
+    simp only [loopFrom, Except.ok.injEq] at h
+    exact ⟨[], trivial, by simpa using h, fun h => absurd h (lt_irrefl 0)⟩
+  | succ fuel ih =>
+    intro k st st' h
+    unfold loopFrom at h
+    cases hs : step k st with
+    | error e => rw [hs] at h; cases h
+    | ok s1 =>
+      rw [hs] at h
+      by_cases hstop : s1.stop = true
+      · simp only [bind, Except.bind, hstop, if_true] at h
+        cases h
+        exact ⟨[st'], ⟨hs, trivial⟩, by simp, fun _ => by simp⟩
+      · simp only [bind, Except.bind, hstop] at h
+        obtain ⟨tr, h1, h2, _⟩ := ih (k + 1) s1 st' h
+        exact ⟨s1 :: tr, ⟨hs, h1⟩, by rw [List.getLastD_cons]; exact h2, fun _ => by simp⟩
+
+theorem isTrace_iteration {step : Nat → State α → Except Reject (State α)}
+    (hit : ∀ k s s', step k s = .ok s' → s'.iteration = k) :
+    ∀ (tr : List (State α)) (k : Nat) (st : State α), IsTrace step k st tr → tr ≠ [] →
+      (tr.getLastD st).iteration + 1 = k + tr.length := by
+  intro tr
+  induction tr with
+  | nil => intro k st _ h; exact absurd rfl h
+  | cons s tr ih =>
+    intro k st h _
+    rw [List.getLastD_cons]
+    by_cases htr : tr = []
+    · subst htr
+      simp [hit k st s h.1]
+    · have := ih (k + 1) s h.2 htr
+      simp only [List.length_cons]
+      omega
+
+end trace
+
+section run
+variable {α : Type} [Field α] [LinearOrder α] [IsStrictOrderedRing α]
+
+/-- A state whose `normresidual` and `fit` are the residual and fit of the model it holds. -/
+structure Reported (D : Data α) (X : List Nat → α) (rank : Nat) (s : State α) : Prop where
+  inv : PassInv D rank s
+  wlen : s.weights.length = rank
+  nonneg : 0 ≤ s.normresidual
+  sq : s.normresidual * s.normresidual = resid2 D X s
+  fit : s.fit = 1 - s.normresidual / D.norm
+
+theorem iterStep_reported {D : Data α} {S : Services α} {o : NumOps α} (ho : o.Lawful) {rank : Nat} {stoptol : α}
+    {dims : List Nat} {it : Nat} {st st' : State α} {X : List Nat → α}
+    (h : iterStep D S o rank stoptol dims it st = .ok st') (hI : PassInv D rank st)
+    (hne : dims ≠ []) (hlast : dims.getLastD 0 < D.shape.length) (hD : DataLaws D X)
+    (hnz : D.norm ≠ 0) (hnorm : D.norm * D.norm = ip D.shape X X) : Reported D X rank st' := by
+  have h1 := iterStep_inv h hI
+  have h2 := (iterStep_report ho h hI hne hlast hD (knormLaw _)).2.1 hnz hnorm
+  exact ⟨h1.1, h1.2.2 hne, h2.1, h2.2.1, h2.2.2⟩
+
+/-- Two consecutive passes: the second (any pass but the very first of the run) reports a residual
+that is not larger and a fit that is not smaller. -/
+theorem iterStep_fit_le {D : Data α} {S : Services α} {o : NumOps α} (ho : o.Lawful) (hS : SolveContract S)
+    {X : List Nat → α} (hD : DataLaws D X) {rank : Nat} {stoptol : α} {dims : List Nat} {it : Nat}
+    {st st' : State α} (h : iterStep D S o rank stoptol dims it st = .ok st') (hit : 0 < it)
+    (hR : Reported D X rank st) (hne : dims ≠ []) (hdims : ∀ n ∈ dims, n < D.shape.length)
+    (hpos : 0 < D.norm) (hnorm : D.norm * D.norm = ip D.shape X X) :
+    Reported D X rank st' ∧ st'.normresidual ≤ st.normresidual ∧ st.fit ≤ st'.fit := by
+  have hlast : dims.getLastD 0 < D.shape.length := by
+    apply hdims
+    rw [List.getLastD_eq_getLast?, List.getLast?_eq_some_getLast hne]
+    exact List.getLast_mem hne
+  have hR' := iterStep_reported ho h hR.inv hne hlast hD hpos.ne' hnorm
+  have hle := iterStep_resid_le ho hS hD h hR.inv hR.wlen hdims (sweepAll_later ho hit _ _)
+  rw [← hR.sq, ← hR'.sq] at hle
+  exact ⟨hR', fit_le_of_resid hpos hR.nonneg hR'.nonneg hle hR.fit hR'.fit⟩
+
+/-- Along the passes of the loop, from any pass but the very first, residuals do not increase
+and fits do not decrease. -/
+theorem trace_monotone {D : Data α} {S : Services α} {o : NumOps α} (ho : o.Lawful) (hS : SolveContract S)
+    {X : List Nat → α} (hD : DataLaws D X) {rank : Nat} {stoptol : α} {dims : List Nat}
+    (hne : dims ≠ []) (hdims : ∀ n ∈ dims, n < D.shape.length)
+    (hpos : 0 < D.norm) (hnorm : D.norm * D.norm = ip D.shape X X) :
+    ∀ (tr : List (State α)) (k : Nat) (st : State α), 0 < k → Reported D X rank st →
+      IsTrace (iterStep D S o rank stoptol dims) k st tr →
+      (st :: tr).Pairwise fun s s' => s'.normresidual ≤ s.normresidual ∧ s.fit ≤ s'.fit := by
+  intro tr
+  induction tr with
+  | nil => intro k st _ _ _; simp
+  | cons s tr ih =>
+    intro k st hk hR h
+    obtain ⟨hR', h1, h2⟩ := iterStep_fit_le ho hS hD h.1 hk hR hne hdims hpos hnorm
+    have hp := ih (k + 1) s (Nat.succ_pos k) hR' h.2
+    refine List.Pairwise.cons ?_ hp
+    intro x hx
+    rcases List.mem_cons.1 hx with rfl | hx
+    · exact ⟨h1, h2⟩
+    · have := (List.pairwise_cons.1 hp).1 x hx
+      exact ⟨le_trans this.1 h1, le_trans h2 this.2⟩
+
+end run
 
 end Pyttb.CpAls
